@@ -35,6 +35,7 @@ type op struct {
 	A       int64  `json:"a"`
 	B       int64  `json:"b"`
 	Index   bool   `json:"index"` // delete: include the index channel
+	Only    string `json:"only"`  // write/delete: "" (index+data) | "index" | "data"
 	Key     uint32 `json:"key"`   // create / delchan
 	M       int    `json:"m"`
 }
@@ -76,6 +77,7 @@ type result struct {
 	Serial runObs `json:"serial"`
 	Points int    `json:"points"`
 	Target int    `json:"target"`
+	Order  []int  `json:"order"` // serial thread order whose outcome is reported in Serial
 }
 
 func idxKey(g uint32) uint32  { return g*10 + 1 }
@@ -113,8 +115,14 @@ func doOp(ctx context.Context, db *cesium.DB, c tcase, o op) (err error) {
 	}()
 	switch o.Op {
 	case "write":
+		keys := []cesium.ChannelKey{idxKey(o.G), dataKey(o.G)}
+		if o.Only == "index" {
+			keys = keys[:1]
+		} else if o.Only == "data" {
+			keys = keys[1:]
+		}
 		cfg := cesium.WriterConfig{
-			Channels: []cesium.ChannelKey{idxKey(o.G), dataKey(o.G)},
+			Channels: keys,
 			Start:    telem.TimeStamp(o.Start),
 		}
 		t, f := true, false
@@ -149,10 +157,13 @@ func doOp(ctx context.Context, db *cesium.DB, c tcase, o op) (err error) {
 				ts[j] = telem.TimeStamp(s)
 				vs[j] = enc(o.G, s)
 			}
-			fr := telem.MultiFrame(
-				[]cesium.ChannelKey{idxKey(o.G), dataKey(o.G)},
-				[]telem.Series{telem.NewSeriesV(ts...), telem.NewSeriesV(vs...)},
-			)
+			srs := []telem.Series{telem.NewSeriesV(ts...), telem.NewSeriesV(vs...)}
+			if o.Only == "index" {
+				srs = srs[:1]
+			} else if o.Only == "data" {
+				srs = srs[1:]
+			}
+			fr := telem.MultiFrame(keys, srs)
 			if _, e := w.Write(fr); e != nil {
 				werr = e
 				break
@@ -177,6 +188,9 @@ func doOp(ctx context.Context, db *cesium.DB, c tcase, o op) (err error) {
 		keys := []cesium.ChannelKey{dataKey(o.G)}
 		if o.Index {
 			keys = append(keys, idxKey(o.G))
+		}
+		if o.Only == "index" {
+			keys = []cesium.ChannelKey{idxKey(o.G)}
 		}
 		return db.DeleteTimeRange(ctx, keys, telem.TimeRange{Start: telem.TimeStamp(o.A), End: telem.TimeStamp(o.B)})
 	case "read":
@@ -358,7 +372,7 @@ func runOnce(c tcase, concurrent bool, skip [][]bool, order []int) (obs runObs) 
 		go func() { wg.Wait(); close(done) }()
 		select {
 		case <-done:
-		case <-time.After(40 * time.Second):
+		case <-time.After(90 * time.Second):
 			obs.Stall = true
 			buf := make([]byte, 1<<20)
 			n := runtime.Stack(buf, true)
@@ -384,7 +398,7 @@ func runOnce(c tcase, concurrent bool, skip [][]bool, order []int) (obs runObs) 
 			obs.Err = "close: " + err.Error()
 			return
 		}
-	case <-time.After(40 * time.Second):
+	case <-time.After(90 * time.Second):
 		obs.Stall = true
 		return
 	}
@@ -432,10 +446,12 @@ func runCase(c tcase) result {
 		so := runOnce(cs, false, skip, order)
 		if first {
 			r.Serial = so
+			r.Order = order
 			first = false
 		}
 		if serialExplains(r.Conc, so) {
 			r.Serial = so
+			r.Order = order
 			break
 		}
 	}
